@@ -160,38 +160,42 @@ func (r Rules) GetIncludes() []*Include {
 //
 // Note: logs.regCleanLogs helps a lot to do a first cleaning
 func (r Rules) Merge() Rules {
-	for i := 0; i < len(r); i++ {
-		for j := i + 1; j < len(r); j++ {
-			if r[i] == nil && r[j] == nil {
-				r = r.Delete(j)
-				j--
-				continue
-			}
-			if r[i] == nil || r[j] == nil {
-				continue
-			}
-			if r[i].Kind() != r[j].Kind() {
-				continue
-			}
+	// A merge changes r[i]: rules already passed over may now merge with it, so the
+	// pass is repeated until nothing merges any more (merging a merged list is a no-op)
+	for merged := true; merged; {
+		merged = false
+		for i := 0; i < len(r); i++ {
+			for j := i + 1; j < len(r); j++ {
+				if r[i] == nil && r[j] == nil {
+					r = r.Delete(j)
+					j--
+					continue
+				}
+				if r[i] == nil || r[j] == nil {
+					continue
+				}
+				if r[i].Kind() != r[j].Kind() {
+					continue
+				}
 
-			// If rules are identical, merge them. Ignore comments
-			if r[i].Kind() != COMMENT && r[i].Compare(r[j]) == 0 {
-				r = r.Delete(j)
-				j--
-				continue
-			}
+				// If rules are identical, merge them. Ignore comments
+				if r[i].Kind() != COMMENT && r[i].Compare(r[j]) == 0 {
+					r = r.Delete(j)
+					j--
+					continue
+				}
 
-			if r[i].Merge(r[j]) {
-				r = r.Delete(j)
-				j--
+				if r[i].Merge(r[j]) {
+					r = r.Delete(j)
+					j--
+					merged = true
+				}
 			}
 		}
 	}
 	return r
 }
 
-// Sort the rules according to the guidelines:
-// https://apparmor.pujol.io/development/guidelines/#guidelines
 func (r Rules) Sort() Rules {
 	slices.SortFunc(r, func(a, b Rule) int {
 		kindOfA := a.Kind()
